@@ -361,6 +361,8 @@ class Interp:
             return self.p.globals[name]
         if name in self.w.consts:
             c = self.w.consts[name]
+            if callable(c) and not isinstance(c, (V, PyObj)):
+                c = c()
             return c if isinstance(c, (V, PyObj)) else K.from_py_const(c)
         if name in ('True', 'False', 'None'):
             return K.from_py({'True': True, 'False': False, 'None': None}[name])
@@ -418,6 +420,7 @@ class Interp:
 
     def heap_write(self, ref, key, kind, val):
         val = K.coerce(val, kind)
+        self.p.heap_epoch += 1
         arrs = self.heap_arrays(key, kind)
         self.p.heap[key] = [z3.Store(a, ref.t, t) for a, t in zip(arrs, val.terms)]
 
@@ -499,7 +502,7 @@ class Interp:
                 raise Unsupported('dict literal with non-constant key')
             v = self.eval(vn)
             if isinstance(v, PyObj):
-                raise Unsupported('dict literal holding %r' % (v,))
+                return PyObj('pydict', node=node)
             fields[kn.value] = v.kind
             terms += [z3.BoolVal(True)] + v.terms
         return V(K.Rec(**fields), terms)
